@@ -314,3 +314,35 @@ C13_UNITS = [
   + [dict(u, name="scope_" + u["name"]) for u in PROPS["C14"]["units"] if u["name"] in ("owner_panic", "child_panic", "child_panic_lifo")] \
   + [dict(u, name="cq_" + u["name"]) for u in C16_UNITS if u["name"] in ("panic_top", "panic_bottom")]
 PROPS["C13"] = dict(assumptions=["Mutex/RwLock protocols (C05, C12); join contract (C01)"], units=C13_UNITS)
+
+# ---------------------------------------------------------------------------------------------
+# C09: cancellation
+# ---------------------------------------------------------------------------------------------
+def cmunit(name, prog, after=0, n=250):
+    return dict(name=name, scenario="cancelmix", params=dict(prog=prog, after=after, workers=8),
+                quick=dict(explore=dict(n=n), dfs=dict(max=n, pb=2)),
+                thorough=dict(explore=dict(n=10 * n), dfs=dict(max=10 * n, pb=3)))
+def _pick(pid, names, prefix):
+    return [dict(u, name=prefix + u["name"]) for u in PROPS[pid]["units"] if u["name"] in names]
+C09_UNITS = [
+    # the cancel protocol itself at atomic-step granularity (canceller as an actor): Park.tla + the park scenario
+    dict(name="park_spec", tlc=[("spec/l1/MCPark.tla", "spec/l1/MCPark.cfg")]),
+    pkunit("cancel_blocker", parker_co=True, kind="blocker", rounds=["park"], unparkers=1, unparks_each=1, canceller=True),
+    pkunit("cancel_blocker_alone", parker_co=True, kind="blocker", rounds=["park"], unparkers=0, unparks_each=0, canceller=True),
+    pkunit("cancel_handle", parker_co=True, kind="handle", rounds=["park", "tpark"], unparkers=1, unparks_each=1, canceller=True),
+    pkunit("cancel_sleep", parker_co=True, kind="handle", rounds=["sleep"], unparkers=0, unparks_each=0, canceller=True),
+    # one victim through every primitive: join result, drops, nothing leaked or poisoned, no hang
+    cmunit("mix_a0", ["park", "sleep", "lock", "sem", "recv"], 0),
+    cmunit("mix_a2", ["park", "sleep", "lock", "sem", "recv"], 2),
+    cmunit("mix_a3", ["park", "sleep", "lock", "sem", "recv"], 3),
+    cmunit("mix_b0", ["mrecv", "flag", "cv", "join", "rwlock"], 0),
+    cmunit("mix_b2", ["mrecv", "flag", "cv", "join", "rwlock"], 2),
+    cmunit("mix_b4", ["mrecv", "flag", "cv", "join", "rwlock"], 4),
+    cmunit("mix_c1", ["join", "recv", "park", "cv"], 1),
+    cmunit("mix_d", ["sem", "lock", "rwlock", "mrecv", "sleep", "flag"], 1),
+    cmunit("mix_d4", ["sem", "lock", "rwlock", "mrecv", "sleep", "flag"], 4),
+] + _pick("C05", ("co3",), "mutex_") + _pick("C10", ("cancel3", "mix3"), "sem_") + _pick("C11", ("cancel3", "deep_cancel"), "cv_") \
+  + _pick("C12", ("clean3",), "rw_") + _pick("C06", ("mpsc_cancel",), "chan_") + _pick("C14", ("cancel_owner",), "scope_") \
+  + _pick("C13", ("mutex_cancel_in_guard", "mutex_panic_cancel_pending"), "poison_") \
+  + _pick("C15", ("reuse_park_cancel", "reuse_sleep_cancel", "reuse_select_cancel"), "innocent_")
+PROPS["C09"] = dict(assumptions=["socket read/accept/connect cancellation is decided with C18"], units=C09_UNITS)
